@@ -14,6 +14,7 @@ import ast
 from fractions import Fraction
 from typing import Dict, List, Optional, Tuple
 
+from ..model import is_helper_name as _is_helper_name
 from ..model import AnalysisError, Model
 from ..paths import Path, PathEnumerator, find_calls
 from ..report import Report
@@ -274,6 +275,9 @@ def a3(model: Model, rep: Report):
             # the kept indices as one comprehension: written as such, or as the accumulator loop it abbreviates
             from ..listflow import as_single_comp
             comp = as_single_comp(p, inner) if inner is not None else None
+            if comp is not None and comp[0] == "comp":
+                from ..extreme import fuse_comprehensions
+                comp = fuse_comprehensions(comp)      # a listing pre-filtered by a helper comprehension ranges over that helper's own domain
             if comp is None or comp[0] != "comp" or len(comp[3]) != 1:
                 raise AnalysisError(f"{construct}: the result is not a filtered listing ({show(inner) if inner else None})")
             dom, conds = comp[3][0]
@@ -358,7 +362,7 @@ def a5(model: Model, rep: Report, rule: str):
                         tg = x.targets[0] if isinstance(x, ast.Assign) else x.target
                         if isinstance(tg, ast.Attribute) and tg.attr == "_structure":
                             return True
-                    if depth < 2 and isinstance(x, ast.Call) and isinstance(x.func, ast.Attribute) and x.func.attr.startswith("_") and not x.func.attr.startswith("__"):
+                    if depth < 2 and isinstance(x, ast.Call) and isinstance(x.func, ast.Attribute) and _is_helper_name(x.func.attr):
                         for h in D.resolve_all(x.func.attr):
                             if _binds(h.node, depth + 1):
                                 return True
